@@ -166,7 +166,10 @@ class static_view:
 
         # normalize asset spec or fs path into resource_path
         if self.package_name:  # package resource
-            resource_path = '{}/{}'.format(self.docroot.rstrip('/'), path)
+            docroot = self.docroot.rstrip('/')
+            # a package-root spec ("pkg:") has an empty docroot: the resource
+            # name must then stay relative, not begin with a slash
+            resource_path = f'{docroot}/{path}' if docroot else path
             if resource_isdir(self.package_name, resource_path):
                 if not request.path_url.endswith('/'):
                     raise self.add_slash_redirect(request)
